@@ -1,7 +1,7 @@
 (* Proofs/C12_e2e.v — end-to-end statements for the configuration that is the code at /repo HEAD
    (FIXED_ORDER = AHEAD = true, SYNC_AHEAD = false): chunk stream -> groupby/join -> synchronisation -> pull machine. *)
 From Coq Require Import ZArith List Bool Lia Arith.
-From BNP Require Import Base.Prims Model.C12 Proofs.C12 Proofs.C12_groupby Proofs.C12_pull.
+From BNP Require Import Base.Prims Model.C12 Proofs.C12 Proofs.C12_groupby Proofs.C12_pull Proofs.C12_fol.
 Import ListNotations.
 
 Lemma stream_guard_pass {A} (t : trace (list Z)) (r : res A) : t <> ([], Stop) -> stream_guard t r = r.
@@ -77,11 +77,12 @@ Proof.
     + apply (runs_names_NoDup bname zlist_eqb zlist_eqb_eq). exact Hc.
 Qed.
 
-(* MultiStream at HEAD: run to the end = full property; as second stream of a zip = guarded *)
-Theorem head_multistream_end_to_end (order : list bname) (chunks : list (list (bname * Z))) :
+(* MultiStream BEFORE notes/C12.fix-4.diff (pinned history, shape 0 = plain for-loop): run to the end = full property;
+   as second stream of a zip = guarded *)
+Theorem pinned_multistream_end_to_end (order : list bname) (chunks : list (list (bname * Z))) :
   NoDup order -> Forall (fun c => c <> []) chunks -> contiguous bname (bkeys (concat chunks)) ->
   let D := runs bname zlist_eqb (concat chunks) in
-  let t := synched_head order (grouped bname zlist_eqb chunks) in
+  let t := synched_by_shape 0 order (grouped bname zlist_eqb chunks) in
   match spec_sync bname zlist_eqb ids [] order [] D with
   | Some a => pull_all t = Done a
               /\ forall ya sizes, length ya = length sizes -> length sizes = length order ->
@@ -91,13 +92,45 @@ Theorem head_multistream_end_to_end (order : list bname) (chunks : list (list (b
 Proof.
   intros Ho Hne Hc D t.
   assert (Ht : t = synched bname zlist_eqb ids [] order D).
-  { unfold t, synched_head, SYNC_AHEAD. rewrite (grouped_chunk_invariant bname zlist_eqb zlist_eqb_eq chunks Hne Hc). reflexivity. }
+  { unfold t, synched_by_shape. simpl. rewrite (grouped_chunk_invariant bname zlist_eqb zlist_eqb_eq chunks Hne Hc). reflexivity. }
   assert (HD : NoDup (map fst D)) by (apply (runs_names_NoDup bname zlist_eqb zlist_eqb_eq); exact Hc).
   pose proof (multistream_exhaustive bname zlist_eqb zlist_eqb_eq ids [] order D Ho HD) as H.
   rewrite Ht. destruct (spec_sync bname zlist_eqb ids [] order [] D) as [a|] eqn:Es; simpl in H.
   - split; [exact H|]. intros ya sizes H1 H2. rewrite machine_zip_second_is_pull_n by exact H1. rewrite H2.
     apply (multistream_npull_good bname zlist_eqb zlist_eqb_eq ids [] order D a Ho HD Es).
   - exact H.
+Qed.
+
+(* MultiStream at HEAD (with notes/C12.fix-4.diff): EVERY consumer — the attribute run to its end, a consumer of any pull
+   depth, the second stream of forbes/jaccard's zip as the pull machine computes it — gets the exact per-contig
+   assignment, or an exception.  No guard on the data. *)
+Theorem head_multistream_end_to_end (order : list bname) (chunks : list (list (bname * Z))) :
+  NoDup order -> order <> [] -> Forall (fun c => c <> []) chunks -> contiguous bname (bkeys (concat chunks)) ->
+  let D := runs bname zlist_eqb (concat chunks) in
+  let t := synched_head order (grouped bname zlist_eqb chunks) in
+  match spec_sync bname zlist_eqb ids [] order [] D with
+  | Some a => pull_all t = Done a
+              /\ (forall k, pull_n k t = Done (firstn k a))
+              /\ forall ya sizes, length ya = length sizes -> length sizes = length order ->
+                   machine_zip_second (ya, Stop) sizes t = Done a
+  | None => (exists c, pull_all t = Err c)
+            /\ (forall k, (length order <= k)%nat -> exists c, pull_n k t = Err c)
+            /\ forall ya sizes, length ya = length sizes -> length sizes = length order ->
+                   exists c, machine_zip_second (ya, Stop) sizes t = Err c
+  end.
+Proof.
+  intros Ho H0 Hne Hc D t.
+  assert (Ht : t = synched_fol bname zlist_eqb ids [] order D).
+  { unfold t. change (synched_head order) with (synched_fol bname zlist_eqb ids [] order).
+    rewrite (grouped_chunk_invariant bname zlist_eqb zlist_eqb_eq chunks Hne Hc). reflexivity. }
+  assert (HD : NoDup (map fst D)) by (apply (runs_names_NoDup bname zlist_eqb zlist_eqb_eq); exact Hc).
+  pose proof (multistream_fol_any_depth bname zlist_eqb zlist_eqb_eq ids [] order D Ho HD H0) as H.
+  pose proof (multistream_fol_npull bname zlist_eqb zlist_eqb_eq ids [] order D Ho HD H0) as Hn.
+  rewrite Ht. destruct (spec_sync bname zlist_eqb ids [] order [] D) as [a|] eqn:Es.
+  - destruct H as [H1 H2]. split; [exact H1|]. split; [exact H2|].
+    intros ya sizes L1 L2. rewrite machine_zip_second_is_pull_n by exact L1. rewrite L2. exact Hn.
+  - destruct H as [H1 H2]. split; [exact H1|]. split; [exact H2|].
+    intros ya sizes L1 L2. rewrite machine_zip_second_is_pull_n by exact L1. rewrite L2. exact Hn.
 Qed.
 
 (* ---------- the second stream of a zip may lose entries (known finding) but never misattributes them ---------- *)
